@@ -65,12 +65,23 @@ func ItemsEqual(it, with Item) bool {
 		// object comparison is the fallback (doing both made nested values cost twice as much per level)
 		specific := false
 		wt := with.GetType()
-		if ActivityTypes.Contains(wt) || wt == ActivityType {
+		asActivity := ActivityTypes.Contains(wt) || wt == ActivityType
+		asActor := ActorTypes.Contains(wt) || wt == ActorType
+		if wt == "" {
+			// no type name: the kind of value says what there is to compare
+			switch with.(type) {
+			case *Activity, Activity:
+				asActivity = true
+			case *Actor, Actor:
+				asActor = true
+			}
+		}
+		if asActivity {
 			specific = OnActivity(it, func(i *Activity) error {
 				result = i.Equals(with)
 				return nil
 			}) == nil
-		} else if ActorTypes.Contains(wt) || wt == ActorType {
+		} else if asActor {
 			specific = OnActor(it, func(i *Actor) error {
 				result = i.Equals(with)
 				return nil
